@@ -41,7 +41,7 @@ func VN_C04(tier int) int { return len(vC04Shapes) }
 
 var vIntPool = []int64{-1, 0, 1, 2, 3, 10}
 var vNonZeroPool = []int64{-1, 1, 2, 3, 10}
-var vFloatPool = []float64{0.5, 1.5, 2.0, 0.25, 3.0}
+var vFloatPool = []float64{0.5, 1.5, 2.0, 0.25, 3.0, 0.1}
 
 // vLiterals collects the literal nodes of an expression in left-to-right order.
 func vLiterals(e Expression, out *[]Expression) {
